@@ -8,6 +8,7 @@ import logging
 from typing import Any
 
 import aiofiles
+from marshmallow import ValidationError
 
 from .exceptions import PersistenceReadError, PersistenceWriteError
 from .model.node import Node, NodeSchema
@@ -39,12 +40,19 @@ class Persistence:
             LOGGER.debug("Persistence file missing, creating file: %s", path)
             await self.save()
             return
-        except (OSError, ValueError) as err:
+        except (OSError, ValueError, RecursionError) as err:
             raise PersistenceReadError(err) from err
 
         node_schema = NodeSchema()
-        for node_data in data.values():
-            node: Node = node_schema.load(node_data)
+        try:
+            nodes: list[Node] = [
+                node_schema.load(node_data) for node_data in data.values()
+            ]
+        except (AttributeError, TypeError, ValidationError) as err:
+            # Valid JSON but not a valid registry.
+            raise PersistenceReadError(err) from err
+
+        for node in nodes:
             self.nodes[node.node_id] = node
 
     async def save(self) -> None:
